@@ -115,6 +115,13 @@ def run(ctx) -> None:
         ctx.check("R3", isinstance(im, ast.Call) and [unparse(a) for a in im.args] == [p_old, p_patterns],
                   f"{fq}: iter_matches({p_old}, {p_patterns}) - all lines, all patterns",
                   f"{fq}: matches are not enumerated over all old lines and all patterns", f"`{unparse(im)}`", loc=fn.loc(im))
+        # the consumer must take every match: no break / return inside the loop over iter_matches, and the replacement
+        # is recorded on every iteration
+        early = [n for n in ast.walk(match_loops[0]) if isinstance(n, (ast.Break, ast.Return)) and getattr(n, "_inline_exit", None) is None]
+        ctx.check("R3", not early, f"{fq}: the loop over iter_matches consumes every match (no break / return)",
+                  f"{fq}: matches after an early exit of the collection loop are ignored",
+                  f"`{unparse(early[0]) if early else ''}` at L{early[0].lineno if early else 0} leaves the loop over iter_matches: occurrences on later lines stay at the old version "
+                  f"although the update succeeds", loc=fn.loc(early[0]) if early else fn.loc(), witness={"file": "two lines that both match the last pattern"})
         ver_mod = "v2version" if eng == "v2rewrite" else "v1version"
         fmt_calls = shapes.find_calls(prog, fn, f"{ver_mod}.format_version")
         ctx.floor("R4", f"format_version calls in {fq}", len(fmt_calls), 1)
@@ -226,6 +233,10 @@ def run(ctx) -> None:
             return "END_GE_START", True
         if lt == f"{needle}.end" and rt == f"{sv}.start" and op in ("<", "<="):
             return "END_GE_START", False
+        roots = lambda e_: {x.id for x in ast.walk(e_) if isinstance(x, ast.Name)}
+        if roots(l) | roots(r) <= {sv} or roots(l) | roots(r) <= {needle}:
+            # compares a span with itself: says nothing about the other interval
+            return f"DEGENERATE({unparse(leaf)})", True
         raise AnalysisError(f"C03/R3: overlap leaf not enumerated: {unparse(leaf)}")
 
     ov = shapes.semantic_bf(cond, ho, classify, prog) if cond is not None else shapes.bool_expr_bf(test_expr, classify)
